@@ -41,6 +41,7 @@ type Line struct {
 	Fill [][]int       `json:"fill,omitempty"`
 	Open bool          `json:"open,omitempty"`
 	Sf   []int         `json:"sf,omitempty"` // per contour: features of the ray from its start w.r.t. the other contours
+	Cf   []int         `json:"cf,omitempty"` // per contour: 1 open, 2 start is the bottom-right-most vertex
 }
 
 // QExp is one query point (scaled by SC) with the specification's expectation.
@@ -64,6 +65,7 @@ type Scenario struct {
 	Fill    [][]int       `json:"fill,omitempty"` // per contour, per rule: 0 / 1 / 2 = not demanded
 	Open    bool          `json:"open"`
 	Sf      []int         `json:"sf,omitempty"`
+	Cf      []int         `json:"cf,omitempty"`
 	Filling bool          `json:"filling,omitempty"` // call Filling (always for panics; values only where Fill demands)
 }
 
@@ -309,16 +311,20 @@ func exec(s *Scenario) (ms []core.Mismatch, red []*Scenario, skipped bool) {
 	if s.Ccw != 0 {
 		var got bool
 		okc, pm := latgeo.Try(func() { got = p.CCW() })
-		r := &Scenario{SC: s.SC, Path: s.Path, Emb: s.Emb, Ccw: s.Ccw, Open: s.Open}
+		r := &Scenario{SC: s.SC, Path: s.Path, Emb: s.Emb, Ccw: s.Ccw, Open: s.Open, Cf: s.Cf}
+		ctag := ptag
+		if len(s.Cf) > 0 && s.Cf[0] == 3 {
+			ctag = "+open-start-rightmost" + ptag
+		}
 		if !okc {
-			add("ccw:"+panicDev(pm)+ptag, fmt.Sprintf("CCW panics: %v; %s", pm, desc), r)
+			add("ccw:"+panicDev(pm)+ctag, fmt.Sprintf("CCW panics: %v; %s", pm, desc), r)
 		} else if got != (s.Ccw*sgn > 0) {
-			add("ccw:wrong"+ptag, fmt.Sprintf("CCW = %v for a simple first contour of orientation %+d; %s", got, s.Ccw*sgn, desc), r)
+			add("ccw:wrong"+ctag, fmt.Sprintf("CCW = %v for a simple first contour of orientation %+d; %s", got, s.Ccw*sgn, desc), r)
 		}
 	}
 	// Filling: always called (it casts rays from the start points of the contours); values compared where demanded
 	if s.Filling && ei.ray {
-		r := &Scenario{SC: s.SC, Path: s.Path, Emb: s.Emb, Fill: s.Fill, Open: s.Open, Sf: s.Sf, Filling: true}
+		r := &Scenario{SC: s.SC, Path: s.Path, Emb: s.Emb, Fill: s.Fill, Open: s.Open, Sf: s.Sf, Cf: s.Cf, Filling: true}
 		sf := 0
 		for _, f := range s.Sf {
 			sf |= f
@@ -327,7 +333,15 @@ func exec(s *Scenario) (ms []core.Mismatch, red []*Scenario, skipped bool) {
 		if sf&fOnOther != 0 {
 			ftag = "+start-on-other-contour"
 		}
-		ftag += ptag
+		if len(s.Path) > 1 {
+			ftag += "+multi"
+		}
+		wtag := ftag
+		for _, f := range s.Cf {
+			if f == 3 {
+				wtag = "+open-start-rightmost" // Filling takes the orientation of each sub-path from CCW
+			}
+		}
 		for rule := 0; rule < 4; rule++ {
 			// under a reflection Positive and Negative swap
 			rr := rule
@@ -346,7 +360,7 @@ func exec(s *Scenario) (ms []core.Mismatch, red []*Scenario, skipped bool) {
 			}
 			for j, f := range s.Fill {
 				if f[rule] != 2 && got[j] != (f[rule] == 1) {
-					add("filling:wrong"+ftag, fmt.Sprintf("Filling(%v)[%d] = %v, expected %v; %s", canvas.FillRule(rr), j, got[j], f[rule] == 1, desc), r)
+					add("filling:wrong"+wtag, fmt.Sprintf("Filling(%v)[%d] = %v, expected %v; %s", canvas.FillRule(rr), j, got[j], f[rule] == 1, desc), r)
 				}
 			}
 		}
@@ -478,7 +492,7 @@ func (r *runner) runGen(o tlc.Opts) {
 				if !latcurve.IsSimilarity(ei.e) || (l.Open && !ei.ray) {
 					continue // the winding over the drawn segments of an open contour depends on the ray direction
 				}
-				s := &Scenario{SC: hdr.SC, Path: l.Path, Emb: ei.e, Queries: qs, Ccw: l.Ccw, Fill: l.Fill, Open: l.Open, Sf: l.Sf, Filling: true}
+				s := &Scenario{SC: hdr.SC, Path: l.Path, Emb: ei.e, Queries: qs, Ccw: l.Ccw, Fill: l.Fill, Open: l.Open, Sf: l.Sf, Cf: l.Cf, Filling: true}
 				ms, red, skipped := exec(s)
 				if skipped {
 					atomic.AddInt64(&r.skipped, 1)
